@@ -594,6 +594,9 @@ def run(ctx):
     import export_inputs_thms, export_inputs2_thms          # whole-program forms (Props/ExportInputs) about exportFile / framesFrom
     import translate                 # decision-logic functions re-translated from the source and proved equal to the model
     _tm, _tt = translate.wire(ctx, "C11")
+    import oncode_thms               # the property theorems stated on the regenerated definitions themselves (Props/OnCode)
+    _om, _ot = oncode_thms.wire("C11")
+    _tm, _tt = _tm + _om, _tt + _ot
     ctx.prove(["TLX.Props.C11"] + export_inputs_thms.MODULES + export_inputs2_thms.MODULES + _tm)
     ctx.require_theorems(_tt)
     ctx.require_theorems(export_inputs_thms.THEOREMS_C11 + export_inputs2_thms.THEOREMS_NAT + export_inputs2_thms.THEOREMS_C11)
